@@ -248,6 +248,8 @@ impl Executor {
             }
 
             if self.context.pool_manager.pool_is_idle() {
+                #[cfg(nexosim_verif)]
+                crate::verif_hooks::protocol_point(5);
                 let msg_count = self.context.msg_count.load(Ordering::Relaxed);
                 if msg_count != 0 {
                     let msg_count: usize = msg_count.try_into().unwrap();
@@ -477,6 +479,8 @@ fn schedule_task(task: Runnable, executor_id: usize) {
             // A task has been pushed to the local or injector queue: try to
             // activate another worker if no worker is currently searching for a
             // task.
+            #[cfg(nexosim_verif)]
+            crate::verif_hooks::protocol_point(4);
             if pool_manager.searching_worker_count() == 0 {
                 pool_manager.activate_worker_relaxed();
             }
@@ -515,9 +519,13 @@ fn run_local_worker(worker: &Worker, id: usize, parker: Parker, abort_signal: Si
             // Signal barrier: park until notified to continue or terminate.
 
             // Try to deactivate the worker.
+            #[cfg(nexosim_verif)]
+            crate::verif_hooks::protocol_point(0);
             if pool_manager.try_set_worker_inactive(id) {
                 // No need to call `begin_worker_search()`: this was done by the
                 // thread that unparked the worker.
+                #[cfg(nexosim_verif)]
+                crate::verif_hooks::protocol_point(1);
                 update_msg_count();
                 parker.park();
             } else if injector.is_empty() {
@@ -527,7 +535,11 @@ fn run_local_worker(worker: &Worker, id: usize, parker: Parker, abort_signal: Si
                 // all threads that pushed tasks to the injector queue but could
                 // not activate a new worker, which is why some tasks may now be
                 // visible in the injector queue.
+                #[cfg(nexosim_verif)]
+                crate::verif_hooks::protocol_point(2);
                 pool_manager.set_all_workers_inactive();
+                #[cfg(nexosim_verif)]
+                crate::verif_hooks::protocol_point(3);
                 update_msg_count();
                 executor_unparker.unpark();
                 parker.park();
